@@ -80,9 +80,12 @@ def search(res, tier, seed, deep=False):
             with warnings.catch_warnings():
                 warnings.simplefilter("ignore")
                 np.random.seed(5); base = d.apply_location(obs, hist, fut, time_obs=tO, time_cm_hist=tH, time_cm_future=tF)
-            for pk in (["random", "reverse", "yearblocks"] if tier != "quick" else [["random", "reverse", "yearblocks"][(rnd + REAL.index(name)) % 3]]):
+            kinds = ["random", "reverse", "yearblocks", "interior"]
+            for pk in (kinds if tier != "quick" else [kinds[(rnd + REAL.index(name) + seed) % 4], "interior"][: (2 if REAL.index(name) % 2 == seed % 2 else 1)]):
                 def perm(n, t):
                     if pk == "random": return np.array(r.sample(range(n), n))
+                    if pk == "interior":      # first and last stored element stay where they are
+                        return np.array([0] + r.sample(range(1, n - 1), n - 2) + [n - 1])
                     if pk == "reverse": return np.arange(n)[::-1]
                     ys = year(t); blocks = [np.where(ys == y)[0] for y in np.unique(ys)]; r.shuffle(blocks); return np.concatenate(blocks)
                 pO, pH, pF = perm(nO, tO), perm(nH, tH), perm(nF, tF)
